@@ -145,30 +145,27 @@ class Scoreboard:
                 ),
             )
 
+        # Scan [startIdx, scanEnd) for maximal runs of slots satisfying the predicate. The scan
+        # region is the window widened by the minimum duration on both sides, so the length of
+        # every run that reaches into the window is known up to that minimum. Qualifying runs
+        # are clipped to the window [sIdx, eIdx); runs that lie wholly outside it are dropped.
         intervals: list[TimeInterval] = []
-        duration = 0
-        start = 0
+        scanEnd = min(eIdx + minDurationSlots, self.size)
+        runStart = -1  # -1: not inside a run (index 0 is a legitimate run start)
 
         idx = startIdx
-        while idx <= endIdx:
-            # yield/predicate check
-            val = self.sb[idx] if idx < len(self.sb) else None  # Boundary check
-            if predicate(val) and idx < endIdx:
-                if start == 0:
-                    start = idx
-                duration += 1
-            else:
-                if duration > 0:
-                    if duration >= minDurationSlots:
-                        if start < sIdx:
-                            start = sIdx
-                        current_idx = idx
-                        if current_idx > eIdx:
-                            current_idx = eIdx
-
-                        intervals.append(TimeInterval(self.idxToDate(start), self.idxToDate(current_idx)))
-                    duration = 0
-                    start = 0
+        while idx <= scanEnd:
+            inRun = idx < scanEnd and bool(predicate(self.sb[idx]))
+            if inRun:
+                if runStart < 0:
+                    runStart = idx
+            elif runStart >= 0:
+                if idx - runStart >= minDurationSlots:
+                    first = max(runStart, sIdx)
+                    last = min(idx, eIdx)
+                    if first < last:
+                        intervals.append(TimeInterval(self.idxToDate(first), self.idxToDate(last)))
+                runStart = -1
             idx += 1
 
         return intervals
